@@ -206,8 +206,12 @@ func (b behaviour) wantCode(matched bool) int {
 
 type request struct {
 	method, uri, remote, wantIP string
-	matched                     bool
-	b                           behaviour
+	// a request that came through a proxy: one of the headers Store.GetClientIP() consults names another address. The
+	// statement says "client IP"; the peer address and the address GetClientIP() reports are both a reading of that,
+	// so either is accepted - the same one in REQ_BEG and REQ_END - and nothing else
+	proxyHeader, proxyValue, proxyIP string
+	matched                          bool
+	b                                behaviour
 	// observed
 	code     int
 	seenID   string
@@ -418,6 +422,14 @@ func genBatch(t *rapid.T) *batch {
 			rq.wantIP = "10.1.2.3"
 			rq.remote = "10.1.2.3:1"
 		}
+		if rapid.IntRange(0, 3).Draw(t, "viaProxy") == 0 {
+			rq.proxyIP = fmt.Sprintf("198.51.100.%d", rapid.IntRange(1, 254).Draw(t, "proxied"))
+			rq.proxyHeader = rapid.SampledFrom([]string{"X-Client-IP", "X-Forwarded-For", "X-Forwarded-For", "X-Real-IP"}).Draw(t, "proxyHeader")
+			rq.proxyValue = rq.proxyIP
+			if rq.proxyHeader == "X-Forwarded-For" && rapid.Bool().Draw(t, "chain") {
+				rq.proxyValue += ",203.0.113.7,203.0.113.8"
+			}
+		}
 		tail := rapid.SampledFrom([]string{"", "?q=1", "?a=b&c=d", "/sub/path", "%20x", "?x=%22quoted%22"}).Draw(t, "uriTail")
 		if rq.matched {
 			rq.uri = fmt.Sprintf("/h/%d%s", i, strings.TrimPrefix(tail, "/sub/path"))
@@ -489,6 +501,9 @@ func runBatch(b *batch, realServer bool) string {
 			u = &url.URL{Path: rq.uri}
 		}
 		req := &http.Request{Method: rq.method, URL: u, RequestURI: rq.uri, RemoteAddr: rq.remote, Header: http.Header{}, Proto: "HTTP/1.1", ProtoMajor: 1, ProtoMinor: 1, Body: http.NoBody}
+		if rq.proxyHeader != "" {
+			req.Header.Set(rq.proxyHeader, rq.proxyValue)
+		}
 		ctx := context.WithValue(context.Background(), ctxKey{}, rq)
 		if rq.b.ctxDone == 1 {
 			var cancel context.CancelFunc
@@ -641,9 +656,13 @@ func runBatch(b *batch, realServer bool) string {
 				if r.level != "INFO" {
 					return fmt.Sprintf("%s: %s record has level %s", what, r.fields["tag"], r.level)
 				}
-				if r.fields["ip"] != rq.wantIP || r.fields["method"] != rq.method || r.fields["path"] != rq.uri {
-					return fmt.Sprintf("%s: %s record says ip=%q method=%q path=%q, want %q %q %q", what, r.fields["tag"], r.fields["ip"], r.fields["method"], r.fields["path"], rq.wantIP, rq.method, rq.uri)
+				ipOK := r.fields["ip"] == rq.wantIP || (rq.proxyIP != "" && r.fields["ip"] == rq.proxyIP)
+				if !ipOK || r.fields["method"] != rq.method || r.fields["path"] != rq.uri {
+					return fmt.Sprintf("%s: %s record says ip=%q method=%q path=%q, want %q %q %q (header %s: %q)", what, r.fields["tag"], r.fields["ip"], r.fields["method"], r.fields["path"], rq.wantIP, rq.method, rq.uri, rq.proxyHeader, rq.proxyValue)
 				}
+			}
+			if bg.fields["ip"] != en.fields["ip"] {
+				return fmt.Sprintf("%s: REQ_BEG says ip=%q, REQ_END says ip=%q", what, bg.fields["ip"], en.fields["ip"])
 			}
 			if en.fields["code"] != strconv.Itoa(rq.code) {
 				return fmt.Sprintf("%s: REQ_END says code=%s, the client received %d", what, en.fields["code"], rq.code)
@@ -733,6 +752,9 @@ func TestBatches(t *testing.T) {
 			}
 			if !rq.matched {
 				ev.Label("unmatched_route")
+			}
+			if rq.proxyHeader != "" {
+				ev.Label("request_names_another_client_address_in_" + rq.proxyHeader)
 			}
 		}
 		ev.Label("handler:" + lm.HandlerNames[b.kind] + "/" + thresholdName(b.threshold))
